@@ -8,6 +8,8 @@ import NutsModel.C16.Spec
 import NutsModel.Facts.C16
 import NutsProofs.Lemmas.C16
 import NutsProofs.Props.C16
+import NutsProofs.Props.C16Node
+import NutsModel.C16.Node
 
 namespace Nuts.C16.Props
 open Nuts Nuts.C16
@@ -327,5 +329,37 @@ theorem reset_noticed_by_client (d : Def) (evs : List Ev) (t0 : Nat) (vp : VP) (
 example : (run factCfg exDef { t := 10 } [.register (exVP "a" "v1" 100), .pollA, .pollB id]).C.seed ≠ 0 ∧
     (step factCfg exDef (step factCfg exDef (run factCfg exDef { t := 10 } [.register (exVP "a" "v1" 100), .pollA, .pollB id]) .reset).1
       (.register (exVP "b" "v2" 110))).2 = .ok () := by decide
+
+/-! ### wave 9: the REST wrapper of `Get` hands on everything -/
+
+/-- `Wrapper.GetPresentations`: timestamp default, `Server.Get`, error, and a return of exactly the map, seed and timestamp
+    `Server.Get` returned — nothing between the call and the return (no cap, no filter: `apiGet` is `Node.get`) -/
+theorem fact_get_presentations_body :
+    Facts.C16.getPresentationsBody =
+      ["var timestamp int",
+       "if request.Params.Timestamp != nil { timestamp = *request.Params.Timestamp }",
+       "presentations, seed, newTimestamp, err := w.Server.Get(contextWithForwardedHost(ctx), request.ServiceID, timestamp)",
+       "if err != nil { return nil, err }",
+       "return GetPresentations200JSONResponse{Seed: seed, Entries: presentations, Timestamp: newTimestamp}, nil"] := by decide
+
+/-- **api_get_no_gap.** Through the REST wrapper (`GET …?timestamp=a`, or without the parameter = 0) a served list answers
+    with EVERY row whose timestamp is above `a` — however many there are — together with the list's seed and last
+    timestamp: a client that takes over the reported timestamp has missed nothing at or below it (`get_no_gap` then
+    applies to what the client does with the answer). -/
+theorem api_get_no_gap (n : Node) (sid : String) (f : Fwd) (a : Option Nat) (x : Service)
+    (h : n.defs.server.get sid = some x) :
+    ∃ rows, apiGet n sid f (a.map Int.ofNat) = .rows rows (n.stores sid).seed (n.stores sid).lastTs ∧
+      (∀ r ∈ (n.stores sid).rows, a.getD 0 < r.ts → r ∈ rows) ∧ ∀ r ∈ rows, r ∈ (n.stores sid).rows ∧ a.getD 0 < r.ts := by
+  refine ⟨(n.stores sid).rowsAfter (a.getD 0), ?_, ?_, ?_⟩
+  · cases a with
+    | none => exact node_get_served n sid f 0 x h
+    | some v => exact node_get_served n sid f v x h
+  · intro r hr hlt; simp [Store.rowsAfter, hr, hlt]
+  · intro r hr; simpa [Store.rowsAfter] using hr
+
+/-- non-vacuity of `api_get_no_gap`: a node that serves list "A" -/
+example : ∃ x, ({ defs := { all := [("A", exSvc "A" 100)], server := [("A", exSvc "A" 100)] } } : Node).defs.server.get "A" = some x :=
+  ⟨_, rfl⟩
+
 
 end Nuts.C16.Props
